@@ -117,7 +117,14 @@ func canaryLayouts(seed uint64) []*Layout {
 			forced["override"] = true
 			forced["interpolation"] = true
 		}
-		out = append(out, GenLayoutForced(r, forced))
+		L := GenLayoutForced(r, forced)
+		if k%5 == 4 {
+			forcedR := map[string]bool{"options": false, "profiles-opt": false, "extends": true}
+			L = GenLayoutForced(r, forcedR)
+			addRemote(&G{R: r, feat: map[string]bool{}, L: L}, L)
+		}
+		L.Opts.NoStubLoader = false
+		out = append(out, L)
 	}
 	return out
 }
